@@ -9,9 +9,9 @@ cd /verif
 for k in $(ls benign | sort -n); do
   (cd "$WT" && git checkout -- src && git apply /verif/benign/$k/patch.diff) || { echo "patch $k: APPLY FAILED"; continue; }
   for c in C01 C02 C03 C04 C05 C06 C07 C08 C10 C13 C14 C16 C17 C18 C20; do
-    out=$(VERIF_REPO=$WT ./check $c --cases $N --wall 40 2>&1 | grep -v "conda\|KNOWN-FINDING")
+    out=$(VERIF_REPO=$WT VERIF_EVIDENCE=0 ./check $c --cases $N --wall 40 2>&1 | grep -v "conda\|KNOWN-FINDING")
     echo "patch $k $c: violations=$(echo "$out" | grep -c '^VIOLATION') harness=$(echo "$out" | grep -c 'HARNESS') :: $(echo "$out" | grep 'rule=\|HARNESS' | head -2 | tr '\n' ' ' | cut -c1-300)"
   done
 done
 git -C /repo worktree remove --force "$WT"
-git -C /verif checkout -- evidence
+
